@@ -27,7 +27,17 @@
 (*        stage per strongly connected group in dependency order; a group  *)
 (*        of several disciplines or a self-coupled discipline is an inner  *)
 (*        MDA (disciplines in listing order), any other discipline is      *)
-(*        executed once.                                                   *)
+(*        executed once;                                                   *)
+(*   alg "SJ" / "SGS" MDASequential of two fixed-point MDAs over all the   *)
+(*        disciplines: a first stage cfg.a1 with ITS OWN tolerance 2^-t1   *)
+(*        and max_mda_iter m1 (neither is cascaded by the generic class),  *)
+(*        then MDAJacobi / MDAGaussSeidel with the tolerance and           *)
+(*        max_mda_iter of the sequence.  The second MDA starts from what   *)
+(*        the first one returned; it is SKIPPED only when the normed       *)
+(*        residual of the first one is below the tolerance OF THE SEQUENCE *)
+(*        (sequential_mda.py: mda.normed_residual < self.settings.         *)
+(*        tolerance) - a first stage that merely met its own looser        *)
+(*        tolerance hands over.                                            *)
 (* Each MDA stage iterates on its RESOLVED variables (base_mda_solver.py,  *)
 (* jacobi.py, gauss_seidel.py, coupling_structure.py): the strong          *)
 (* couplings of its disciplines; for Jacobi all the couplings when some    *)
@@ -77,6 +87,8 @@
 (*   ChainEqualsMonolithic  no stage of a chain reads what a later stage   *)
 (*               produces and every group has a unique solution: solving   *)
 (*               group after group gives the solution of the whole system; *)
+(*   SeqHandOver a sequence that ends before its last MDA ends on a        *)
+(*               residual within the tolerance of the SEQUENCE;            *)
 (*   Budget      the counter never exceeds max(1, max_mda_iter).           *)
 (* Exact(sys) is the rational solution <<numerators, det>> by the adjugate.*)
 (***************************************************************************)
@@ -87,7 +99,7 @@ LOCAL INSTANCE Mat
 CONSTANTS Fams,      \* subset of {"nil", "con"}
           Profiles,  \* size profiles as decimal digits: 22 = sizes <<2, 2>>, 121 = <<1, 2, 1>>
           Seeds,     \* seeds of the instance generator
-          Algs,      \* subset of {"J", "GS", "CJ", "CGS"}
+          Algs,      \* subset of {"J", "GS", "CJ", "CGS", "SJ", "SGS"}
           Ws,        \* relaxation factors as w / 2: subset of {1, 2, 3}
           Tols,      \* tolerance exponents t (tolerance = 2^-t); 99 stands for tolerance 0 (cfg.t = -1)
           MaxIts,    \* values of max_mda_iter
@@ -192,8 +204,9 @@ ValidInst(I) ==
       ELSE /\ I.db \in 2..3
            /\ 2 * QN(I) <= DB(I))
 
-Inner(C) == IF C.alg \in {"J", "CJ"} THEN "J" ELSE "GS"
+Inner(C) == IF C.alg \in {"J", "CJ", "SJ"} THEN "J" ELSE "GS"      \* the (last) algorithm that iterates
 IsChain(C) == C.alg \in {"CJ", "CGS"}
+IsSeq(C) == C.alg \in {"SJ", "SGS"}
 NStages(I, C) == IF IsChain(C) THEN Cardinality(Groups(I)) ELSE 1
 NMDAStages(I, C) == IF IsChain(C) THEN Cardinality({g \in Groups(I) : IsMDAGrp(I, g)}) ELSE 1
 
@@ -202,12 +215,16 @@ NMDAStages(I, C) == IF IsChain(C) THEN Cardinality({g \in Groups(I) : IsMDAGrp(I
 \* more, every MDA stage of a chain starts from what the previous one left; numerators stay below
 \* 2^31 while the exponent is <= ExpLimit (|y| < 32 on both families)
 ExpLimit(C) == IF C.w = 3 THEN 18 ELSE 22
-Bits(I, C) == ((IF Inner(C) = "GS" THEN ND(I) ELSE 1) * I.db + (IF C.w = 2 THEN 0 ELSE 1))
-              * (C.maxit + 1) * (IF C.warm THEN C.runs ELSE 1) * NMDAStages(I, C)
+SweepBits(I, C, a) == (IF a = "GS" THEN ND(I) ELSE 1) * I.db + (IF C.w = 2 THEN 0 ELSE 1)
+Bits(I, C) == SweepBits(I, C, Inner(C)) * (C.maxit + 1) * (IF C.warm THEN C.runs ELSE 1) * NMDAStages(I, C)
               + (IF IsChain(C) THEN ND(I) * I.db ELSE 0)
+              + (IF IsSeq(C) THEN SweepBits(I, C, C.a1) * (C.m1 + 1) ELSE 0)
 
 ValidCfg(I, C) ==
-  /\ C.alg \in {"J", "GS", "CJ", "CGS"}
+  /\ C.alg \in {"J", "GS", "CJ", "CGS", "SJ", "SGS"}
+  /\ C.a1 \in {"J", "GS"} /\ C.t1 \in -1..20 /\ C.m1 \in 1..8
+  \* a sequence: one execution, every MDA computes at least one residual
+  /\ (IsSeq(C) => C.runs = 1 /\ ~C.warm /\ C.maxit >= 1)
   /\ C.w \in 1..3
   /\ C.ord \in Perms(ND(I))
   /\ C.t \in -1..20
@@ -337,14 +354,17 @@ AmpAny(I) == IF I.fam = "con" THEN <<QN(I), DB(I) - QN(I)>>
 ----------------------------------------------------------------------------
 (* the program of an MDA object                                             *)
 SetComps(I, S) == SelectSeq(AllIdx(I), LAMBDA c : DiscOf(I, c) \in S)
-StageOf(I, C, D) ==
+\* a: the algorithm of the stage, t / m: its tolerance exponent and max_mda_iter
+StageOfAlg(I, C, D, a, t, m) ==
   LET mda == ~IsChain(C) \/ IsMDAGrp(I, D)
-      rv  == IF mda THEN ResolvedIn(I, D, Inner(C), C.ord) ELSE {}
+      rv  == IF mda THEN ResolvedIn(I, D, a, C.ord) ELSE {}
   IN  [ds   |-> SelectSeq(C.ord, LAMBDA i : i \in D),
-       mda  |-> mda,
+       mda  |-> mda, inner |-> a, t |-> t, maxit |-> m,
        ridx |-> SetComps(I, rv),                                      \* resolved components
        rvar |-> [j \in 1..Cardinality(rv) |-> CompSeq(I, SeqOfSet(rv)[j])]]   \* per resolved variable
+StageOf(I, C, D) == StageOfAlg(I, C, D, Inner(C), C.t, C.maxit)
 ProgOf(I, C) == IF IsChain(C) THEN [s \in 1..Cardinality(Groups(I)) |-> StageOf(I, C, StageGroup(I, s))]
+                ELSE IF IsSeq(C) THEN <<StageOfAlg(I, C, Discs(I), C.a1, C.t1, C.m1), StageOf(I, C, Discs(I))>>
                 ELSE <<StageOf(I, C, Discs(I))>>
 
 ----------------------------------------------------------------------------
@@ -353,25 +373,28 @@ Worst(S) == IF "gt" \in S THEN "gt" ELSE IF "eq" \in S THEN "eq" ELSE "le"
 Verdict(c) == IF c < 0 THEN "le" ELSE IF c = 0 THEN "eq" ELSE "gt"
 One == <<BN(1), 0>>
 RefSq(ref, idx) == LET s == SumSq(ref, idx) IN IF Len(s[1]) = 0 THEN One ELSE s
-\* r: the residual, ref: the first residual, st: the stage (resolved components and variables)
-Small(C, r, ref, st) ==
+\* r: the residual, ref: the first residual, st: the stage (resolved components and variables),
+\* t: the tolerance exponent (-1: tolerance 0)
+SmallT(C, t, r, ref, st) ==
   LET P == SumSq(r, st.ridx)
   IN  \* a residual that vanishes exactly has the normed residual 0.0 <= tolerance in doubles too
       IF Len(P[1]) = 0 THEN "le"
-      ELSE IF C.t = -1 THEN "gt"
-      ELSE CASE C.scal = "no"   -> Verdict(CmpSq(P, C.t, One, 1))
-             [] C.scal = "ncpl" -> Verdict(CmpSq(P, C.t, One, Len(st.ridx)))
-             [] C.scal = "init" -> Verdict(CmpSq(P, C.t, RefSq(ref, st.ridx), 1))
+      ELSE IF t = -1 THEN "gt"
+      ELSE CASE C.scal = "no"   -> Verdict(CmpSq(P, t, One, 1))
+             [] C.scal = "ncpl" -> Verdict(CmpSq(P, t, One, Len(st.ridx)))
+             [] C.scal = "init" -> Verdict(CmpSq(P, t, RefSq(ref, st.ridx), 1))
              [] C.scal = "sub"  ->
-                  Worst({Verdict(CmpSq(SumSq(r, st.rvar[j]), C.t, RefSq(ref, st.rvar[j]), 1)) : j \in 1..Len(st.rvar)})
+                  Worst({Verdict(CmpSq(SumSq(r, st.rvar[j]), t, RefSq(ref, st.rvar[j]), 1)) : j \in 1..Len(st.rvar)})
              [] C.scal = "comp" ->
-                  Worst({Verdict(CmpSq(SumSq(r, <<st.ridx[j]>>), C.t, RefSq(ref, <<st.ridx[j]>>), 1)) : j \in 1..Len(st.ridx)})
+                  Worst({Verdict(CmpSq(SumSq(r, <<st.ridx[j]>>), t, RefSq(ref, <<st.ridx[j]>>), 1)) : j \in 1..Len(st.ridx)})
+
+Small(C, r, ref, st) == SmallT(C, st.t, r, ref, st)
 
 ----------------------------------------------------------------------------
 DVec(v) == [c \in 1..Len(v) |-> DInt(v[c])]
-AlgNo(a) == CASE a = "J" -> 0 [] a = "GS" -> 1 [] a = "CJ" -> 2 [] OTHER -> 3
+AlgNo(a) == CASE a = "J" -> 0 [] a = "GS" -> 1 [] a = "CJ" -> 2 [] a = "CGS" -> 3 [] a = "SJ" -> 4 [] OTHER -> 5
 Sel(I, C) == (Len(I.sz) * 7 + I.sz[1] * 3 + I.xs[1] + I.c[1] * 5 + PosIn(C.ord, 1) * 11 + C.w * 13 + C.t * 17
-              + C.maxit * 19 + AlgNo(C.alg) * 23 + (IF C.warm THEN 29 ELSE 0)
+              + C.maxit * 19 + AlgNo(C.alg) * 23 + (IF C.warm THEN 29 ELSE 0) + (IF C.a1 = "GS" THEN 37 ELSE 0) + C.t1 * 41
               + (CASE C.scal = "no" -> 1 [] C.scal = "init" -> 2 [] C.scal = "ncpl" -> 3
                    [] C.scal = "sub" -> 4 [] OTHER -> 5) * 31 + 1000) % SelMod
 
@@ -382,11 +405,13 @@ Instances == TLCEval({I \in {Gen(f, ProfSz(p), s) : f \in Fams, p \in Profiles, 
 \* together with the largest max_mda_iter inside the exactness envelope per algorithm, relaxation
 \* factor and (cold, warm-started second execution); -1: none
 CfgOf(a, w, m, warm) == [alg |-> a, w |-> w, ord |-> <<1, 2>>, t |-> 1, maxit |-> m, scal |-> "no",
-                         warm |-> warm, runs |-> IF warm THEN 2 ELSE 1]
+                         warm |-> warm, runs |-> IF warm THEN 2 ELSE 1,
+                         \* a sequence: a Gauss-Seidel first stage with as many iterations as the second
+                         a1 |-> "GS", t1 |-> 1, m1 |-> MaxI(1, m)]
 MaxMaxIt(I, a, w, warm) ==
   LET ok == {m \in 0..8 : Bits(I, CfgOf(a, w, m, warm)) <= ExpLimit(CfgOf(a, w, m, warm))}
   IN  IF ok = {} THEN -1 ELSE CHOOSE m \in ok : \A n \in ok : n <= m
-Envelope(I) == [a \in {"J", "GS", "CJ", "CGS"} |-> [w \in 1..3 |-> <<MaxMaxIt(I, a, w, FALSE), MaxMaxIt(I, a, w, TRUE)>>]]
+Envelope(I) == [a \in {"J", "GS", "CJ", "CGS", "SJ", "SGS"} |-> [w \in 1..3 |-> <<MaxMaxIt(I, a, w, FALSE), MaxMaxIt(I, a, w, TRUE)>>]]
 ASSUME Emit => \A I \in Instances : PrintT(<<"CASE", I, Envelope(I), Cardinality(Groups(I)), DelayedWeakOrders(I),
                                                  \A i \in Discs(I) : IsMDAGrp(I, Grp(I, i))>>)
 
@@ -395,7 +420,7 @@ ASSUME Emit => \A I \in Instances : PrintT(<<"CASE", I, Envelope(I), Cardinality
 \* every other value starts from the defaults again
 WarmSet(I, C) == IF C.alg = "J" THEN ResolvedIn(I, Discs(I), "J", C.ord) ELSE StrongIn(I, Discs(I))
 
-FirstPc(C, st) == IF ~st.mda THEN "single" ELSE IF Inner(C) = "GS" THEN "pre" ELSE "sweep"
+FirstPc(C, st) == IF ~st.mda THEN "single" ELSE IF st.inner = "GS" THEN "pre" ELSE "sweep"
 
 \* b = ExAux(I), computed once per instance
 Start(I, C, b) ==
@@ -410,17 +435,21 @@ Start(I, C, b) ==
       /\ res = DVec([c \in 1..Dim(I) |-> 0])
       /\ log = << >>
       /\ aux = [den |-> b.den, ex |-> b.ex, prog |-> prog, one |-> OneGroup(I), warm |-> WarmSet(I, C),
-                amp |-> IF OneGroup(I) THEN Amp(I, Inner(C), C.ord) ELSE AmpAny(I)]
+                amp |-> [s \in 1..Len(prog) |-> IF OneGroup(I) THEN Amp(I, prog[s].inner, C.ord) ELSE AmpAny(I)]]
 
 Init ==
   \E I \in Instances : LET b == TLCEval(ExAux(I)) IN
-    \E C \in [alg : Algs, w : Ws, ord : Perms(ND(I)), t : {IF x = 99 THEN -1 ELSE x : x \in Tols},
-              maxit : MaxIts, scal : Scals,
-              warm : Warm, runs : {NRuns}] :
-       /\ (~C.warm \/ NRuns = 2)
-       /\ ValidCfg(I, C)
-       /\ Sel(I, C) \in SelRes
-       /\ Start(I, C, b)
+    \E C0 \in [alg : Algs, w : Ws, ord : Perms(ND(I)), t : {IF x = 99 THEN -1 ELSE x : x \in Tols},
+               maxit : MaxIts, scal : Scals, warm : Warm] :
+      \* the first stage of a sequence: algorithm, tolerance exponent, max_mda_iter
+      \E fs \in IF C0.alg \in {"SJ", "SGS"} THEN {"J", "GS"} \X {1, 3} \X {1, 3} ELSE {<<"J", 1, 1>>} :
+        LET C == [alg |-> C0.alg, w |-> C0.w, ord |-> C0.ord, t |-> C0.t, maxit |-> C0.maxit, scal |-> C0.scal,
+                  warm |-> C0.warm, runs |-> IF IsSeq(C0) THEN 1 ELSE NRuns,
+                  a1 |-> fs[1], t1 |-> fs[2], m1 |-> fs[3]]
+        IN  /\ (C.warm => C.runs = 2)
+            /\ Sel(I, C) \in SelRes             \* (first: cheap)
+            /\ ValidCfg(I, C)
+            /\ Start(I, C, b)
 
 St == aux.prog[stage]
 NDs == Len(St.ds)
@@ -428,18 +457,26 @@ NDs == Len(St.ds)
 Exec ==
   /\ pc \in {"pre", "sweep"} /\ pos < NDs
   /\ LET d   == St.ds[pos + 1]
-         src == IF Inner(cfg) = "J" THEN bef ELSE y
+         src == IF St.inner = "J" THEN bef ELSE y
      IN  y' = [c \in 1..Dim(inst) |-> IF c \in Comps(inst, d) THEN OutComp(inst, run, c, src) ELSE y[c]]
   /\ pos' = pos + 1
   /\ UNCHANGED <<inst, cfg, run, stage, pc, k, bef, gq, r0, res, log, aux>>
 
-\* go to the next stage of the program, or finish
-Advance(newlog) ==
+\* go to the next stage of the program (more = TRUE), or finish
+AdvanceIf(newlog, more) ==
   /\ log' = newlog
   /\ gq' = << >> /\ k' = 0 /\ pos' = 0
-  /\ IF stage < Len(aux.prog)
+  /\ IF more /\ stage < Len(aux.prog)
      THEN stage' = stage + 1 /\ pc' = FirstPc(cfg, aux.prog[stage + 1])
      ELSE stage' = stage /\ pc' = "done"
+Advance(newlog) == AdvanceIf(newlog, TRUE)
+
+\* sequential_mda.py: the remaining MDAs are skipped iff  mda.normed_residual < self.settings.tolerance,
+\* the tolerance of the SEQUENCE (strict; a residual 0.0 is below any positive tolerance; at an exact
+\* equality of non-zero sides a double may fall on either side)
+HandOver == LET v == SmallT(cfg, cfg.t, res, r0[stage][1], St)
+                z == \A j \in 1..Len(St.ridx) : res[St.ridx[j]] = DZero
+            IN  IF z THEN {cfg.t = -1} ELSE IF v = "le" THEN {FALSE} ELSE IF v = "eq" THEN {TRUE, FALSE} ELSE {TRUE}
 
 \* a stage that needs no MDA: its discipline is executed once on the current data
 Single ==
@@ -453,7 +490,7 @@ Single ==
 \* gauss_seidel.py: one sweep before the loop; max_mda_iter = 0 returns after it
 EndPre ==
   /\ pc = "pre" /\ pos = NDs
-  /\ IF cfg.maxit = 0
+  /\ IF St.maxit = 0
      THEN /\ bef' = y
           /\ Advance(Append(log, <<0, FALSE>>))
      ELSE /\ pc' = "sweep" /\ bef' = y /\ pos' = 0
@@ -474,15 +511,17 @@ Stop ==
   /\ pc = "test"
   /\ \E cv \in BOOLEAN :
         /\ \/ cv /\ Verd \in {"le", "eq"}
-           \/ ~cv /\ Verd \in {"gt", "eq"} /\ k >= cfg.maxit
-        /\ Advance(Append(log, <<k, cv>>))
+           \/ ~cv /\ Verd \in {"gt", "eq"} /\ k >= St.maxit
+        /\ IF IsSeq(cfg)
+           THEN \E more \in HandOver : AdvanceIf(Append(log, <<k, cv>>), more)
+           ELSE Advance(Append(log, <<k, cv>>))
   /\ bef' = y
   /\ UNCHANGED <<inst, cfg, run, y, r0, res, aux>>
 
 \* relaxation_acceleration.py + over_relaxation.py, acceleration NoTransformation
 Continue ==
   /\ pc = "test"
-  /\ Verd \in {"gt", "eq"} /\ k < cfg.maxit
+  /\ Verd \in {"gt", "eq"} /\ k < St.maxit
   /\ y' = IF gq = << >> \/ cfg.w = 2 THEN y
           ELSE [c \in 1..Dim(inst) |->
                   IF \E j \in 1..Len(St.ridx) : St.ridx[j] = c
@@ -509,10 +548,10 @@ Spec == Init /\ [][Next]_vars
 ----------------------------------------------------------------------------
 (* properties                                                               *)
 OneStage == Len(aux.prog) = 1
-Sweeps == k + (IF Inner(cfg) = "GS" THEN 1 ELSE 0)           \* sweeps completed at a test
+Sweeps == k + (IF St.inner = "GS" THEN 1 ELSE 0)           \* sweeps completed at a test
 Tested == pc = "test"
 
-Budget == k <= MaxI(1, cfg.maxit)
+Budget == k <= MaxI(1, St.maxit)
 
 NilExact ==
   (inst.fam = "nil" /\ OneStage /\ pc = "test" /\ Sweeps >= (IF cfg.w = 2 THEN 1 ELSE 2) * Dim(inst))
@@ -523,12 +562,13 @@ NilExact ==
 NilStop ==
   (/\ inst.fam = "nil" /\ pc = "done"
    /\ (cfg.t = -1 \/ (cfg.scal = "no" /\ cfg.t >= 1))
-   /\ \A j \in 1..Len(log) : log[j][2])
+   /\ (IsSeq(cfg) => (cfg.t1 = -1 \/ (cfg.scal = "no" /\ cfg.t1 >= 1)))
+   /\ (IF IsSeq(cfg) THEN log[Len(log)][2] ELSE \A j \in 1..Len(log) : log[j][2]))
      => IsExact(aux.ex[run], aux.den, y)
 
 \* exponent of q in the a-priori bound after s sweeps
 PowS == IF cfg.w = 2 THEN Sweeps
-        ELSE (IF Inner(cfg) = "GS" THEN 1 ELSE 0) + ((k + 2) \div 2)
+        ELSE (IF St.inner = "GS" THEN 1 ELSE 0) + ((k + 2) \div 2)
 APriori ==
   (inst.fam = "con" /\ aux.one /\ OneStage /\ pc = "test" /\ run = 1 /\ cfg.w \in {1, 2}) =>
      LET E  == VExp(y)
@@ -540,14 +580,20 @@ APriori ==
 ResInf == LET E == VExp(res)
           IN  <<MaxTo([c \in 1..Dim(inst) |-> AbsI(DAt(res[c], E))], Dim(inst)), E>>
 APost ==
-  (Tested /\ OneStage) =>
-     LET a  == aux.amp
+  (Tested /\ (OneStage \/ IsSeq(cfg))) =>
+     LET a  == aux.amp[stage]
          E  == VExp(y)
          rn == ResInf
          d  == aux.den
      IN  \* err * d * 2^E / (d 2^E) <= a1/a2 * rn1 / 2^rn2
          BLeq(BShl(BMulSmall(ErrInf(aux.ex[run], aux.den, y), a[2]), rn[2]),
               BShl(BMul(BMulSmall(BN(rn[1]), a[1]), BN(d)), E))
+
+\* a sequence that stops before its last MDA stopped on a residual within ITS tolerance (res, r0 and
+\* stage are those of the MDA that ran last)
+SeqHandOver ==
+  (IsSeq(cfg) /\ pc = "done" /\ Len(log) < Len(aux.prog)) =>
+     SmallT(cfg, cfg.t, res, r0[stage][1], St) \in {"le", "eq"}
 
 \* evaluated once per instance (a property of the instance, not of the state)
 ChainEqualsMonolithic == (pc = "done" /\ run = 1) => ChainEqualsMonolithicOn(inst)
